@@ -376,7 +376,7 @@ def hashedAll (c : HashCtx) (n : Nat) (ts : List (T Trie.Bytes)) : List Trie.Byt
 
 theorem hashedAll_mem {n : Nat} {ts : List (T Trie.Bytes)} {t : T Trie.Bytes} (m : t ∈ ts) :
     ∀ x ∈ hashedT c (4 * n) [] t, x ∈ hashedAll c n ts :=
-  fun x hx => List.mem_flatMap.mpr ⟨t, m, hx⟩
+  fun _ hx => List.mem_flatMap.mpr ⟨t, m, hx⟩
 
 theorem storeAfter_snoc (c : HashCtx) (n : Nat) (ts : List (T Trie.Bytes)) (t : T Trie.Bytes) :
     storeAfter c n (ts ++ [t]) = commitS (storeAfter c n ts) (pairsOf c n [] t) := by
@@ -449,5 +449,52 @@ theorem getRoot_covers (ok : HashOK c (4 * n)) {t : T Trie.Bytes} (ct : Committe
     rw [this]
     refine ⟨?_, List.take_of_length_le (by omega)⟩
     intro e; rw [e] at hl; simp at hl
+
+/-! ### values of reachable tries -/
+
+theorem look_mem {V : Type} : ∀ (kvs : List (KV V)) (k : List Bool) (ov : Option V), look kvs k = some ov → (k, ov) ∈ kvs := by
+  intro kvs
+  induction kvs with
+  | nil => intro k ov h; simp [look] at h
+  | cons kv rest ih =>
+    intro k ov h
+    obtain ⟨k', ov'⟩ := kv
+    simp only [look] at h
+    split at h
+    · rename_i e; simp only [Option.some.injEq] at h; subst h; subst e; simp
+    · exact List.mem_cons_of_mem _ (ih k ov h)
+
+/-- every value a map built from batches returns was put by one of the batches (or was in the initial map) -/
+theorem foldl_applyF_vals {V : Type} (P : V → Prop) : ∀ (bs : List (List (KV V))) (f : List Bool → Option V),
+    (∀ k v, f k = some v → P v) → (∀ b ∈ bs, ∀ kv ∈ b, ∀ v, kv.2 = some v → P v) →
+    ∀ k v, bs.foldl applyF f k = some v → P v := by
+  intro bs
+  induction bs with
+  | nil => intro f hf _ k v h; exact hf k v h
+  | cons b bs ih =>
+    intro f hf hb
+    simp only [List.foldl_cons]
+    refine ih (applyF f b) ?_ (fun b' m => hb b' (List.mem_cons_of_mem _ m))
+    intro k v h
+    simp only [applyF] at h
+    cases hl : look b k with
+    | none => rw [hl] at h; exact hf k v h
+    | some ov =>
+      rw [hl] at h
+      simp only at h
+      exact hb b (by simp) (k, ov) (look_mem b k ov hl) v h
+
+theorem vals32_of_get : ∀ (t : T Trie.Bytes) (h : Nat), Canon h t →
+    (∀ k v, k.length = h → get t k = some v → v.length = 32) → Vals32 t := by
+  intro t
+  induction t with
+  | empty => intro _ _ _; trivial
+  | leaf k v => intro h cn hg; exact hg k v (by simpa [Canon] using cn) (by simp [Trie.get])
+  | node l r ihl ihr =>
+    intro h cn hg
+    obtain ⟨h1, cl⟩ := canon_child cn false
+    obtain ⟨_, cr⟩ := canon_child cn true
+    exact ⟨ihl (h - 1) cl (fun k v hk e => hg (false :: k) v (by simp; omega) (by simpa [Trie.get] using e)),
+      ihr (h - 1) cr (fun k v hk e => hg (true :: k) v (by simp; omega) (by simpa [Trie.get] using e))⟩
 
 end Aergo.TrieStore
